@@ -58,7 +58,8 @@ type labConn struct {
 	closed   chan struct{}
 	closeCnt int32
 	once     sync.Once
-	errGo    chan struct{} // released by e<i>
+	errGo    chan struct{} // e<c> hands one token to every Serve call reading the conn at that moment
+	readErr  chan error    // an injected read failure (f<c>:<kind>), taken by exactly one reader
 	reading  chan struct{} // signalled each time ReadFrom is entered
 	lab      *lab
 }
@@ -73,8 +74,18 @@ func (c *labConn) ReadFrom(p []byte) (int, net.Addr, error) {
 		return copy(p, d.data), d.addr, nil
 	case <-c.errGo:
 		return 0, nil, &net.OpError{Op: "read", Net: "udp", Err: net.ErrClosed}
+	case err := <-c.readErr:
+		return 0, nil, err
 	}
 }
+
+// tempErr is a net.Error that reports itself as temporary (e.g. a timeout)
+type tempErr struct{}
+
+func (tempErr) Error() string   { return "i/o timeout (injected)" }
+func (tempErr) Timeout() bool   { return true }
+func (tempErr) Temporary() bool { return true }
+
 func (c *labConn) WriteTo(p []byte, addr net.Addr) (int, error) {
 	c.lab.mu.Lock()
 	c.lab.writes = append(c.lab.writes, fmt.Sprintf("%d>%s:%s", c.idx, addr.String(), hx(p)))
@@ -174,7 +185,7 @@ func newLab(nconn int, skipVerify bool, secrets map[string][]byte) *lab {
 		downRet: map[int]chan string{}, downCancel: map[int]context.CancelFunc{}, askCh: make(chan int, 64), doneCh: make(chan struct{}, 64), hookCh: make(chan string, 8)}
 	l.srv = &radius.PacketServer{SecretSource: l, Handler: l, InsecureSkipVerify: skipVerify}
 	for i := 0; i < nconn; i++ {
-		l.conns = append(l.conns, &labConn{idx: i, in: make(chan labDgram), closed: make(chan struct{}), errGo: make(chan struct{}), reading: make(chan struct{}, 1), lab: l})
+		l.conns = append(l.conns, &labConn{idx: i, in: make(chan labDgram), closed: make(chan struct{}), errGo: make(chan struct{}), readErr: make(chan error), reading: make(chan struct{}, 8), lab: l})
 	}
 	return l
 }
@@ -255,11 +266,22 @@ func runServerScenario(skipVerify bool, secretSpec string, cmds []string, w *os.
 		}
 	}
 	for _, c := range cmds {
-		if (c[0] == 'S' || c[0] == 'D') && len(c) > 1 {
-			n := atoi(strings.SplitN(c[1:], ":", 2)[0]) + 1
-			if n > nconn {
-				nconn = n
+		if c == "" {
+			return "BAD-CASE"
+		}
+		f := strings.Split(c[1:], ":")
+		n := 0
+		switch c[0] {
+		case 'S', 'D':
+			n = atoi(f[0]) + 1
+		case 'T':
+			if len(f) != 2 {
+				return "BAD-CASE"
 			}
+			n = atoi(f[1]) + 1
+		}
+		if n > nconn {
+			nconn = n
 		}
 	}
 	if nconn > 4 {
@@ -270,6 +292,25 @@ func runServerScenario(skipVerify bool, secretSpec string, cmds []string, w *os.
 	defer radius.VerifSetHook(nil)
 	ol := &obsList{w: w}
 	serveState := map[int]string{} // "", parked, reading, returned
+	serveConn := map[int]int{}
+	readersOn := func(c int) []int {
+		var r []int
+		for i := 0; i < 8; i++ {
+			if serveState[i] == "reading" && serveConn[i] == c {
+				r = append(r, i)
+			}
+		}
+		return r
+	}
+	drain := func(ch chan struct{}) {
+		for {
+			select {
+			case <-ch:
+			default:
+				return
+			}
+		}
+	}
 	downState := map[int]string{}
 	taskState := map[int]string{} // asked, handler, done
 	reqWire := map[int][]byte{}
@@ -285,17 +326,25 @@ func runServerScenario(skipVerify bool, secretSpec string, cmds []string, w *os.
 		}
 		arg := c[1:]
 		switch c[0] {
-		case 'S':
-			i := atoi(arg)
-			if i < 0 || i >= nconn || serveState[i] != "" {
+		case 'S', 'T':
+			i, cn := 0, 0
+			if c[0] == 'S' {
+				i = atoi(arg)
+				cn = i
+			} else {
+				f := strings.Split(arg, ":")
+				i, cn = atoi(f[0]), atoi(f[1])
+			}
+			if i < 0 || i > 7 || cn < 0 || cn >= nconn || serveState[i] != "" {
 				ol.add("S=noop")
 				continue
 			}
+			serveConn[i] = cn
 			ret := make(chan string, 2)
 			l.serveRet[i] = ret
 			go func() {
 				defer recoverTo(ret, l)
-				ret <- errName(l.srv.Serve(l.conns[i]))
+				ret <- errName(l.srv.Serve(l.conns[cn]))
 			}()
 			select {
 			case <-l.hookCh:
@@ -317,9 +366,10 @@ func runServerScenario(skipVerify bool, secretSpec string, cmds []string, w *os.
 				ol.add("s=noop")
 				continue
 			}
+			drain(l.conns[serveConn[i]].reading)
 			close(l.serveParked[i])
 			select {
-			case <-l.conns[i].reading:
+			case <-l.conns[serveConn[i]].reading:
 				serveState[i] = "reading"
 				ol.add("s=reading")
 			case r := <-l.serveRet[i]:
@@ -335,10 +385,12 @@ func runServerScenario(skipVerify bool, secretSpec string, cmds []string, w *os.
 				return "BAD-CASE"
 			}
 			i := atoi(f[0])
-			if i < 0 || i >= nconn || serveState[i] != "reading" || atomic.LoadInt32(&l.conns[i].closeCnt) > 0 {
+			if i < 0 || i >= nconn || len(readersOn(i)) != 1 || atomic.LoadInt32(&l.conns[i].closeCnt) > 0 {
+				// (with several Serve calls reading one conn the receiver of a datagram is not determined)
 				ol.add("D=noop")
 				continue
 			}
+			drain(l.conns[i].reading)
 			data := unhx(f[2])
 			select {
 			case l.conns[i].in <- labDgram{data, labAddr{"peer" + f[1]}}:
@@ -484,19 +536,97 @@ func runServerScenario(skipVerify bool, secretSpec string, cmds []string, w *os.
 				ol.add("W=noop")
 			}
 		case 'e':
-			i := atoi(arg)
-			if i < 0 || i >= nconn || serveState[i] != "reading" || atomic.LoadInt32(&l.conns[i].closeCnt) == 0 {
+			cn := atoi(arg)
+			rs := []int{}
+			if cn >= 0 && cn < nconn {
+				rs = readersOn(cn)
+			}
+			if len(rs) == 0 || atomic.LoadInt32(&l.conns[cn].closeCnt) == 0 {
 				ol.add("e=noop")
 				continue
 			}
-			close(l.conns[i].errGo)
-			if r, ok := waitStr(l.serveRet[i], labWait); ok {
-				serveReturned(i, r)
-				ol.add("e="+r)
-			} else {
+			var res []string
+			hang := false
+			for range rs {
+				select {
+				case l.conns[cn].errGo <- struct{}{}:
+				case <-time.After(labWait):
+					hang = true
+				}
+			}
+			for _, i := range rs {
+				if r, ok := waitStr(l.serveRet[i], labWait); ok {
+					serveReturned(i, r)
+					res = append(res, r)
+				} else {
+					hang = true
+				}
+			}
+			if hang {
 				ol.add("e=HANG")
 				return strings.Join(ol.toks, " ")
 			}
+			ol.add("e=" + strings.Join(res, "+"))
+		case 'f':
+			// a read failure that does not come from Close: exactly one of the Serve calls reading conn c gets it
+			f := strings.Split(arg, ":")
+			if len(f) != 2 {
+				return "BAD-CASE"
+			}
+			cn := atoi(f[0])
+			rs := []int{}
+			if cn >= 0 && cn < nconn {
+				rs = readersOn(cn)
+			}
+			if len(rs) == 0 {
+				ol.add("f=noop")
+				continue
+			}
+			var e error
+			switch f[1] {
+			case "nontemp":
+				e = &net.OpError{Op: "read", Net: "udp", Err: errors.New("injected failure")}
+			case "temp":
+				e = tempErr{}
+			case "plain":
+				e = errors.New("injected plain error")
+			default:
+				return "BAD-CASE"
+			}
+			drain(l.conns[cn].reading)
+			select {
+			case l.conns[cn].readErr <- e:
+			case <-time.After(labWait):
+				ol.add("f=HANG")
+				return strings.Join(ol.toks, " ")
+			}
+			outcome := ""
+			deadline := time.Now().Add(labWait)
+			for outcome == "" && time.Now().Before(deadline) {
+				for _, i := range rs {
+					select {
+					case r := <-l.serveRet[i]:
+						serveReturned(i, r)
+						outcome = r + "@" + itoa(i)
+					default:
+					}
+					if outcome != "" {
+						break
+					}
+				}
+				if outcome == "" {
+					select {
+					case <-l.conns[cn].reading:
+						outcome = "retry"
+					case <-time.After(200 * time.Microsecond):
+					}
+				}
+			}
+			if outcome == "" {
+				ol.add("f=HANG")
+				return strings.Join(ol.toks, " ")
+			}
+			ol.add("f=" + outcome)
 		case 'Z':
 			// release everything in a fixed order and require that every call returns
 			stuck := ""
@@ -552,21 +682,28 @@ func runServerScenario(skipVerify bool, secretSpec string, cmds []string, w *os.
 					}
 				}
 			}()
-			for i := range l.conns {
-				if serveState[i] == "reading" {
-					// wait for Close by Shutdown, then release the read error
+			for cn := range l.conns {
+				rs := readersOn(cn)
+				if len(rs) == 0 {
+					continue
+				}
+				// wait for Close by Shutdown, then release the read error to every reader
+				select {
+				case <-l.conns[cn].closed:
+				case <-time.After(labWait):
+					stuck += fmt.Sprintf(",listener%d-not-closed", cn)
+					continue
+				}
+				for range rs {
 					select {
-					case <-l.conns[i].closed:
+					case l.conns[cn].errGo <- struct{}{}:
 					case <-time.After(labWait):
-						stuck += fmt.Sprintf(",listener%d-not-closed", i)
-						continue
+						stuck += fmt.Sprintf(",reader-on-%d-not-reading", cn)
 					}
-					select {
-					case <-l.conns[i].errGo:
-					default:
-						close(l.conns[i].errGo)
-					}
+				}
+				for _, i := range rs {
 					if r, ok := waitStr(l.serveRet[i], labWait); ok {
+						serveReturned(i, r)
 						if r != "shutdown" {
 							stuck += fmt.Sprintf(",serve%d=%s", i, r)
 						}
@@ -589,13 +726,6 @@ func runServerScenario(skipVerify bool, secretSpec string, cmds []string, w *os.
 			}
 			if atomic.LoadInt32(&l.panics) > 0 {
 				stuck += ",panic"
-			}
-			for i, c := range l.conns {
-				if serveState[i] != "" && !strings.HasPrefix(serveState[i], "returned:shutdown") || serveState[i] == "reading" {
-					if atomic.LoadInt32(&c.closeCnt) == 0 && serveState[i] != "" && serveState[i] != "returned:shutdown" {
-						stuck += fmt.Sprintf(",conn%d-never-closed", i)
-					}
-				}
 			}
 			if stuck == "" {
 				ol.add("Z=clean")
@@ -742,10 +872,25 @@ func genC07(g *Gen, tier string, emit func(op string, args ...string)) {
 		interleavings([][]string{serve(0), {"X0", "x0", "W0"}, {"X1", "x1", "C1", "W1"}}, 0, g, sc)
 		interleavings([][]string{serve(0), serve(1), {"X0", "x0", "W0"}}, 0, g, sc)
 	}
+	// several Serve calls on ONE conn; read failures that do not come from Close (before Shutdown a
+	// non-temporary one ends that Serve call only; after Shutdown any failure means ErrServerShutdown)
+	shared := func(i int) []string { return []string{"T" + itoa(i) + ":0", "s" + itoa(i)} }
+	for _, k := range []string{"nontemp", "temp", "plain"} {
+		lim := 250 // (3780 interleavings per kind: all of them in the thorough tier)
+		if tier == "thorough" {
+			lim = 0
+		}
+		interleavings([][]string{shared(0), shared(1), {"f0:" + k}, {"X0", "x0", "e0", "W0"}}, lim, g, sc)
+		sc([]string{"S0", "s0", "X0", "x0", "f0:" + k, "W0"})
+		sc([]string{"T0:0", "s0", "T1:0", "s1", "X0", "x0", "f0:" + k, "f0:" + k, "W0"})
+		sc([]string{"T0:0", "s0", "T1:0", "s1", "f0:" + k, "D0:0:" + d0, "d0", "F0:2", "X0", "x0", "e0", "W0"})
+		sc([]string{"T0:1", "s0", "T1:1", "s1", "T2:1", "s2", "f1:" + k, "f1:" + k, "X0", "x0", "W0", "e1", "W0"})
+	}
 	// sampled: larger configurations
 	interleavings([][]string{serve(0), dgram(0, 0, d0, 2), dgram(0, 1, d1, 0), down(0, false)}, n, g, sc)
 	interleavings([][]string{serve(0), serve(1), dgram(0, 0, d0, 3), dgram(1, 1, d0, 2), down(0, false), down(1, true)}, n, g, sc)
 	interleavings([][]string{serve(0), dgram(0, 0, d0, 2), dgram(0, 1, d0, 2), dgram(0, 2, d1, 11), down(0, true), {"S1", "s1", "e1"}}, n, g, sc)
+	interleavings([][]string{{"T0:0", "s0", "f0:nontemp", "e0"}, {"T1:0", "s1", "f0:temp"}, {"T2:1", "s2", "f1:plain", "e1"}, dgram(1, 0, d0, 2), down(0, false)}, n, g, sc)
 }
 
 func genC06(g *Gen, tier string, emit func(op string, args ...string)) {
